@@ -130,6 +130,8 @@ class _Inline(_InternalNode):
             for var in self.inputs.get_vars().values()
         ):
             return {}
+        if _value_prop._VALUE_PROP_BACKEND == _value_prop.ValuePropBackend.NONE:
+            return {}
         wrap_feed, run, unwrap_feed = _value_prop.get_backend_calls()
         input_feed = {
             i.name: wrap_feed(var._value)
